@@ -423,6 +423,19 @@ Proof.
   unfold key_match. rewrite !andb_true_iff, !Z.eqb_eq, negb_true_iff. tauto.
 Qed.
 
+Lemma single_data f : r_len f <= Z.of_nat (length (firstn MAXLEN (chunk 0 f))) ->
+  firstn (Z.to_nat (r_len f)) (firstn MAXLEN (chunk 0 f) ++ repeat 255 223) = chunk 0 f /\ (0 <= r_len f -> Z.of_nat (length (chunk 0 f)) = r_len f).
+Proof.
+  intros Er.
+  assert (Hc0 : chunk 0 f = firstn (Z.to_nat (r_len f)) (r_buf f)) by (unfold chunk; rewrite Nat.sub_0_r; reflexivity).
+  assert (Hle : (length (chunk 0 f) <= Z.to_nat (r_len f))%nat) by (rewrite Hc0; apply firstn_le_length).
+  assert (Hsmall : (length (chunk 0 f) <= MAXLEN)%nat).
+  { destruct (Nat.le_gt_cases (length (chunk 0 f)) MAXLEN); auto. rewrite firstn_length, Nat.min_l in Er by lia. unfold MAXLEN in *. lia. }
+  rewrite (firstn_all2 (chunk 0 f) Hsmall) in *. split.
+  - rewrite firstn_app_short by lia. apply firstn_all2. exact Hle.
+  - intros. lia.
+Qed.
+
 Lemma rx_nontp_post c p f D g r pri pgn src dst r1 ev idx :
   can_id_to_n2k (r_id f) = (pri, pgn, src, dst) -> n_pgn (rn r) = c -> tab_ok c p (r_slots r) g -> ghost_ok (length p) g D ->
   rx_nontp r pri pgn src dst f = (r1, ev, idx) -> ev = [] /\ post c p f D r r1 idx.
@@ -545,16 +558,29 @@ Proof.
         -- cbv zeta. rewrite <- A12, <- A9. apply slot_msg_data. lia.
         -- intros X. congruence.
       * exists (length p), f. cbn [m_pgn m_src m_dst m_pri]. subst s' base. cbn [s_pgn s_src s_dst s_pri s_len s_data] in *.
-        rewrite Hdata in Er.
-        assert (Hc0 : chunk 0 f = firstn (Z.to_nat (r_len f)) (r_buf f)) by (unfold chunk; rewrite Nat.sub_0_r; reflexivity).
-        assert (Hle : (length (chunk 0 f) <= Z.to_nat (r_len f))%nat) by (rewrite Hc0; apply firstn_le_length).
-        assert (Hsmall : (length (chunk 0 f) <= MAXLEN)%nat).
-        { destruct (Nat.le_gt_cases (length (chunk 0 f)) MAXLEN); auto. rewrite firstn_length, Nat.min_l in Er by lia. unfold MAXLEN in *. lia. }
-        rewrite firstn_all2 in Er by exact Hsmall.
+        rewrite Hdata in Er. destruct (single_data f Er) as [SD1 SD2].
         repeat split; auto; try congruence.
         -- apply nth_error_snoc. -- rewrite <- Fpri. symmetry. apply fpri_land.
-        -- unfold slot_msg. cbn [m_data s_len s_data]. rewrite (copy_buf_first 0) by lia. rewrite firstn_all2 by exact Hsmall.
-           rewrite firstn_app_short by lia. apply firstn_all2. exact Hle.
-        -- intros Hpos. unfold m_len, slot_msg. cbn [m_data s_len s_data]. rewrite (copy_buf_first 0) by lia. rewrite firstn_all2 by exact Hsmall.
-           rewrite firstn_app_short by lia. rewrite firstn_all2 by exact Hle. lia.
+        -- unfold slot_msg. cbn [m_data s_len s_data]. rewrite (copy_buf_first 0) by lia. exact SD1.
+        -- intros Hpos. unfold m_len, slot_msg. cbn [m_data s_len s_data]. rewrite (copy_buf_first 0) by lia. rewrite SD1. auto.
+Qed.
+
+(* ---------------- the ISO-TP handler shares the table ---------------- *)
+Definition tp_post (c:pgncfg) (p:list rxframe) (g:list (list nat)) (r r1:rnode) (idx:Z) : Prop :=
+  r_q r1 = r_q r /\ n_pgn (rn r1) = n_pgn (rn r) /\ c_only_known (r_cfg r1) = c_only_known (r_cfg r) /\ nslots r1 = nslots r /\
+  tab_ok c p (r_slots r1) g /\ (idx <? nslots r1 = true -> 0 <= idx /\ s_tp (get_slot r1 idx) = true).
+
+Lemma harmless_tp c s s' : s_tp s' = true -> harmless c s s'.
+Proof. left; auto. Qed.
+Lemma harmless_rel c s s' : rel_eq s s' -> harmless c s s'.
+Proof. right; right; auto. Qed.
+
+Lemma handle_tp_post c p g r pgn src dst len buf h r1 ev idx :
+  n_pgn (rn r) = c -> tab_ok c p (r_slots r) g ->
+  handle_tp r pgn src dst len buf = (h, r1, ev, idx) ->
+  dlv_of ev = [] /\ (h = true -> tp_post c p g r r1 idx) /\ (h = false -> r1 = r).
+Proof.
+  intros Hc T H. unfold handle_tp in H. revert H. crack; intros H; injection H as E0 E1 E2 E3; subst.
+  all: try (split; [reflexivity|split; [intros; discriminate | reflexivity]]).
+  Show.
 Qed.
